@@ -346,8 +346,9 @@ func Run(h func()) (panicked interface{}) {
 // stealAfter) and takes the token, exactly like the engine's "blocked" hand-over.
 
 type nthread struct {
-	gid  int64
-	done int32
+	gid    int64
+	done   int32
+	parked int32 // 1 while waiting for the token in acquire
 }
 
 var (
@@ -389,6 +390,10 @@ func myTid() int {
 func acquire(me int) {
 	last := atomic.LoadInt64(&nprogress)
 	lastChange := time.Now()
+	if atomic.LoadInt32(&ncur) != int32(me) {
+		atomic.StoreInt32(&nthreads[me].parked, 1)
+		defer atomic.StoreInt32(&nthreads[me].parked, 0)
+	}
 	for atomic.LoadInt32(&ncur) != int32(me) {
 		time.Sleep(200 * time.Microsecond)
 		if p := atomic.LoadInt64(&nprogress); p != last {
@@ -415,10 +420,31 @@ func Yield() {
 	}
 	acquire(me)
 	other := 1 - me
+	// The engine hands a released mutex to its waiter at once. Natively the waiter, woken by our Unlock, runs without the
+	// token until its next yield point: let it get there (it then parks) before we go on, so that it - not we - wins the
+	// mutex. If it is blocked in a mutex we hold it never parks: give up after a short while.
+	for i := 0; i < 150 && atomic.LoadInt32(&nthreads[other].done) == 0 && atomic.LoadInt32(&nthreads[other].parked) == 0 && nthreads[other].gid != 0; i++ {
+		time.Sleep(200 * time.Microsecond)
+	}
 	if atomic.LoadInt32(&nthreads[other].done) != 0 || npre >= nbound {
 		return
 	}
-	if Choose("sched", 2) == 1 {
+	c := Choose("sched", 2)
+	if os.Getenv("VF_SCHED_TRACE") != "" {
+		var pcs [6]uintptr
+		k := runtime.Callers(2, pcs[:])
+		fr := runtime.CallersFrames(pcs[:k])
+		where := ""
+		for i := 0; i < 4; i++ {
+			f, more := fr.Next()
+			where += " < " + f.Function[strings.LastIndex(f.Function, "/")+1:]
+			if !more {
+				break
+			}
+		}
+		fmt.Fprintf(os.Stderr, "VF-SCHED thread=%d yield#%d switch=%d%s\n", me, len(seenCh), c, where)
+	}
+	if c == 1 {
 		npre++
 		atomic.StoreInt32(&ncur, int32(other))
 		acquire(me)
